@@ -71,7 +71,8 @@ def read_stub(text, target_ns=None):
         try:
             return src, eval(compile(ast.Expression(expr_node), "<anno>", "eval"), env)
         except Exception as e:
-            return src, StubError("annotation-does-not-evaluate", f"{src!r}: {type(e).__name__}: {e}")
+            kind = "typeddict-class-body-does-not-evaluate" if where == "typeddict-class-body" else "annotation-does-not-evaluate"
+            return src, StubError(kind, f"{src!r}: {type(e).__name__}: {e}")
 
     out["ev"] = ev
     # class-body annotations of generated TypedDict classes also use names
